@@ -15,14 +15,14 @@ def main():
         s = vf.tlc("ScanWalk", sc, workers=4, collect=False, timeout=300)
         if s.violated != inv:
             raise vf.NotAVerdict("sanity invariant %s not violated: vacuous model" % inv)
-    fams = ["ScanWalk-F1-skip.cfg", "ScanWalk-F2-git.cfg", "ScanWalk-F3-paths.cfg", "ScanWalk-F4-size.cfg", "ScanWalk-F5-links.cfg", "ScanWalk-F8-rootsize.cfg"]
+    fams = ["ScanWalk-F1-skip.cfg", "ScanWalk-F2-git.cfg", "ScanWalk-F3-paths.cfg", "ScanWalk-F4-size.cfg", "ScanWalk-F5-links.cfg", "ScanWalk-F8-rootsize.cfg", "ScanWalk-F3-deep.cfg"]
     if ck.thorough():
         fams = [f.replace(".cfg", "-t.cfg") if os.path.exists(os.path.join(vf.SPEC, "cfg", f.replace(".cfg", "-t.cfg"))) else f for f in fams]
         fams += [f for f in ["ScanWalk-F6-mixed-t.cfg"] if os.path.exists(os.path.join(vf.SPEC, "cfg", f))]
     modes = ["stream/plain", "fallback/nasty", "real/nasty", "wide/plain"]
     scanwalk.run_family(ck, fams, modes)
     ck.cov["exhaustive"] = True
-    ck.cov["rule"] = ("every scenario (tree over a 10-slot path universe with .gitignore files at every level, skip list/regex/glob, gitignore atoms, "
+    ck.cov["rule"] = ("every scenario (tree over a 10-slot path universe - 12 slots down to a/b/c/f in the deep family - with .gitignore files at every level, skip list/regex/glob, gitignore atoms, "
                       "requested paths, cut-off, size limit, symlink/special files, extractor 'required' sets) reachable in ScanWalk.tla under the cfg "
                       "constants, each replayed through scalibr.Scan on an in-memory FS (streaming and fallback listing, plain and dotted/spaced/dashed names) "
                       "and on a real directory; non-trivial = at least one Extract call expected")
